@@ -818,6 +818,15 @@ func scenarios(out string) {
 	fld("addr-of-string-field-to-go", "setname(&hp.B)\nhp.B", wantV("renamed"))
 	fld("addr-of-typed-element-to-go", "incr(&sl[1])\nsl[1]", wantV(int64(3)))
 	fld("addr-of-field-is-the-field", "sameaddr(&hp.A)", wantV(true))
+	// a Go function is called with the values its argument expressions had when they were evaluated, also when a later argument stores into the place
+	fld("args-are-values-typed-element", "func bump() { sl[0] = 99; return 5 }\ncol(sl[0], bump())", wantV([]interface{}{int64(1), int64(5)}))
+	fld("args-are-values-typed-element-fixed", "func bump() { sl[0] = 99; return 5 }\npair2(sl[0], bump())", wantV([]int64{1, 5}))
+	fld("args-are-values-field", "func bump() { hp.A = 99; return 5 }\ncol(hp.A, bump(), hp.A)", wantV([]interface{}{int64(1), int64(5), int64(99)}))
+	fld("args-are-values-string-field", "func bump() { hp2.B = \"new\"; return \"x\" }\ncol(hp2.B, bump())", wantV([]interface{}{"sub", "x"}))
+	fld("args-are-values-list-element", "a = [1, 2]\nfunc bump() { a[0] = 99; return 5 }\npair2(a[0], bump())", wantV([]int64{1, 5}))
+	fld("args-are-values-deref", "p = &hp.A\nfunc bump() { hp.A = 99; return 5 }\ncol(*p, bump())", wantV([]interface{}{int64(1), int64(5)}))
+	fld("args-are-values-method", "func bump() { sl[0] = 99; return 5 }\nhv.Var(sl[0], bump())", wantV(int(2)))
+	fld("args-are-values-spread-last", "func bump() { sl[0] = 99; return [5] }\npair2(sl[0], bump()...)", wantV([]int64{1, 5}))
 	fld("method-value-recv", "hv.Val(10)", wantV(int64(12)))
 	fld("method-value-recv-on-ptr", "hp.Val(10)", wantV(int64(11)))
 	fld("method-ptr-recv-on-ptr", "hp.Ptr(1)\nhp.A", wantV(int64(2)))
@@ -881,6 +890,7 @@ func scenarios(out string) {
 			return p + ":" + strings.Join(parts, ",")
 		})
 		e.Define("gi", func(x int64) int64 { return x })
+		e.Define("pair2", func(a, b int64) []int64 { return []int64{a, b} })
 		e.Define("incr", func(p *int64) { *p++ })
 		e.Define("setname", func(p *string) { *p = "renamed" })
 		e.Define("sameaddr", func(p *int64) bool { return p == &hp.A })
